@@ -21,6 +21,7 @@ import unicodedata
 from fractions import Fraction
 
 import common
+import floatref
 import lexcfg
 from yaql.language import exceptions, expressions
 from yaql.language import factory as yfactory
@@ -940,6 +941,9 @@ def run(env, res):
 
     if env['replay']:
         rp = json.load(open(env['replay']))['case']
+        if rp.get('section') == 'floatround':
+            floatref.replay(env, res, rp)
+            return res
         engs = [Eng(rp['engine'])]
         run_ = Runner(env, res, engs, rng)
         if rp['fam'] == 'next':
@@ -979,6 +983,7 @@ def run(env, res):
         run_.next_offsets(run_.nx)
     hist['engines'] = len(engs)
     hist['verbatim_unspellable_strings_seen'] = run_.known_seen
+    hist['floatround'] = floatref.run_section(env, res, ID, 500 if env['tier'] == 'quick' else 6000)
     res.extra['histogram'] = dict(families=run_.fam_hist, real_outcomes=run_.out_hist, **hist)
     res.extra['engines'] = [e.rc for e in engs][:8]
     res.extra['int_max_str_digits'] = limit
